@@ -11,8 +11,8 @@
     [overdrawn_at tol p x] says that right after [x] (which follows the prefix [p]) the account debited by [x] is more
     than [tol] units below zero.  Vocabulary: Model/ComputedSpec.v.  Proofs: Proofs/BalanceProofs.v, Proofs/C08Proofs.v. *)
 From Coq Require Import List ZArith Bool Lia.
-From RP2V Require Import Base.Prelude Base.Time Base.Dec Model.Types Model.Generated Model.Pipeline Model.Computed Model.ComputedSpec
-  Proofs.BalanceProofs Proofs.C08Proofs.
+From RP2V Require Import Base.Prelude Base.Time Base.Dec Model.Types Model.Generated Model.Matcher Model.MatchWf Model.Pipeline Model.Computed Model.ComputedSpec
+  Proofs.BalanceProofs Proofs.C08Proofs Proofs.C08Compute.
 Import ListNotations.
 Open Scope Z_scope.
 
@@ -84,12 +84,47 @@ Theorem C08_compute_switch : forall period from_day to_day exs hos t fs cd,
   (forall e, balances false to_day exs hos t = Err e -> compute period from_day to_day false exs hos t fs = Err ENegBalance).
 Proof. exact c08_compute_switch. Qed.
 
+(** end to end, for the aggregation [compute] and for matching + aggregation [compute_tax]: the negative-balance error can only
+    come from the balance replay (every other stage fails with another error kind), it is raised at the first overdraft and
+    names the overdrawn account ([first_negative] = the account of the message, [acct_name] its "exchange_holder" text);
+    a history that is otherwise fine is rejected without -n exactly when some debit overdraws, and computed identically otherwise *)
+Theorem C08_compute_names_overdrawn_account : forall period from_day to_day allow exs hos t fs, holders_ok t ->
+  compute period from_day to_day allow exs hos t fs = Err ENegBalance ->
+  allow = false /\
+  exists p x r ex ho, take_until txn_day to_day (replay_order t) = p ++ x :: r /\
+    debited x = Some (ex, ho) /\ balance_after ex ho (p ++ [x]) < -5 /\
+    (forall p1 y p2, p = p1 ++ y :: p2 -> ~ overdrawn_at 5 p1 y) /\
+    first_negative false {| bs_acq := []; bs_sent := []; bs_recv := []; bs_final := [] |}
+                   (take_until txn_day to_day (replay_order t)) = Some (ex, ho).
+Proof. exact compute_names_overdrawn_account. Qed.
+
+Theorem C08_compute_rejects_exactly_overdrafts : forall period from_day to_day exs hos t fs cd, holders_ok t ->
+  compute period from_day to_day true exs hos t fs = Ok cd ->
+  (compute period from_day to_day false exs hos t fs = Err ENegBalance <->
+   exists p x r, take_until txn_day to_day (replay_order t) = p ++ x :: r /\ overdrawn_at 5 p x) /\
+  ((forall p x r, take_until txn_day to_day (replay_order t) = p ++ x :: r -> ~ overdrawn_at 5 p x) ->
+   compute period from_day to_day false exs hos t fs = Ok cd).
+Proof. exact compute_rejects_overdraft. Qed.
+
+Theorem C08_compute_tax_names_overdrawn_account : forall period from_day to_day allow exs hos sched t evs, holders_ok t ->
+  taxable_events t = Ok evs -> wf (t_ins t) sched (map event_of evs) ->
+  compute_tax period from_day to_day allow exs hos sched t = Err ENegBalance ->
+  allow = false /\
+  (exists fs, fractions_of gen_always_repush sched t = Ok fs) /\
+  exists p x r ex ho, take_until txn_day to_day (replay_order t) = p ++ x :: r /\
+    debited x = Some (ex, ho) /\ balance_after ex ho (p ++ [x]) < -5 /\
+    (forall p1 y p2, p = p1 ++ y :: p2 -> ~ overdrawn_at 5 p1 y) /\
+    first_negative false {| bs_acq := []; bs_sent := []; bs_recv := []; bs_final := [] |}
+                   (take_until txn_day to_day (replay_order t)) = Some (ex, ho).
+Proof. exact compute_tax_names_overdrawn_account. Qed.
+
 (** Non-vacuity (Proofs/C08Proofs.v and Proofs/L4Examples.v, evaluated by the kernel): history B (buy 1, sell 2, buy 5:
     transient overdraft, final balance +4) meets the hypotheses of C08_overdraft_rejected ([tB_holders_ok],
     [tB_credits_nonneg], [tB_overdrawn]) and is rejected ([c08_overdraft_instance], [c08_first_instance],
     [tB_rejected]: account E0/H0 is named), accepted with -n ([tB_final_positive]) and reports -1 coin when the to-date
     lies before the refill ([tB_negative_reported]); dust: 5e-11 below zero accepted, 6e-11 rejected ([dust_5_accepted],
-    [dust_6_rejected]); history A is accepted under both settings ([c08_accepted_instance]). *)
+    [dust_6_rejected]); history A is accepted under both settings ([c08_accepted_instance]); Proofs/C08Compute.v:
+    [tB_compute_rejected], [tB_compute_named] (instance of C08_compute_names_overdrawn_account), [tB_account_name] ("E0_H0"). *)
 
 Print Assumptions C08_tolerance.
 Print Assumptions C08_rejected_iff.
@@ -101,3 +136,6 @@ Print Assumptions C08_within_tolerance_accepted.
 Print Assumptions C08_allowed_reports.
 Print Assumptions C08_switch_irrelevant_when_accepted.
 Print Assumptions C08_compute_switch.
+Print Assumptions C08_compute_names_overdrawn_account.
+Print Assumptions C08_compute_rejects_exactly_overdrafts.
+Print Assumptions C08_compute_tax_names_overdrawn_account.
